@@ -343,6 +343,8 @@ def main():
             r = run(op, args)
         except BaseException as e:  # PanicException derives from BaseException
             r = "EXC:" + type(e).__name__
+            if op == "parse":
+                r += ":" + str(e)
         out.append(r.replace("\n", "\\n"))
     sys.stdout.write("\n".join(out) + ("\n" if out else ""))
 
